@@ -20,10 +20,18 @@ REPO = '/repo'
 ALL = ['C%02d' % i for i in range(1, 21)]
 
 
-def scratch_copy(patch):
+def scratch_copy(patch, base=None):
+    """Copy of /repo's working tree (or, for a change whose trigger a later fix removed, of the commit `base` it
+    was written against) with the patch applied; patch=None gives the pristine copy."""
     tmp = tempfile.mkdtemp(prefix='vfseed_')
-    for name in ('pynetdicom2', 'tests'):
-        shutil.copytree(os.path.join(REPO, name), os.path.join(tmp, name))
+    if base:
+        ar = subprocess.run(['git', '-C', REPO, 'archive', base, 'pynetdicom2', 'tests'], capture_output=True, check=True)
+        subprocess.run(['tar', '-x', '-C', tmp], input=ar.stdout, check=True)
+    else:
+        for name in ('pynetdicom2', 'tests'):
+            shutil.copytree(os.path.join(REPO, name), os.path.join(tmp, name))
+    if patch is None:
+        return tmp
     res = subprocess.run(['patch', '-p1', '-s', '-i', patch], cwd=tmp, capture_output=True, text=True)
     if res.returncode != 0:
         shutil.rmtree(tmp, ignore_errors=True)
@@ -48,14 +56,16 @@ def evaluate(args):
     meta = json.load(open(os.path.join(d, 'meta.json')))
     prop = meta['property']
     out = []
+    base = meta.get('base')
     try:
-        tree = scratch_copy(os.path.join(d, 'patch.diff'))
+        tree = scratch_copy(os.path.join(d, 'patch.diff'), base)
     except RuntimeError as exc:
         return name, ['%-14s %s PATCH-ERROR %s' % (name, prop, exc)], None
+    pristine = scratch_copy(None, base) if base else REPO
     try:
         demo = os.path.join(d, 'demo.py')
         r1 = subprocess.run(['/venv/bin/python', demo, tree], capture_output=True, text=True, timeout=300)
-        r0 = subprocess.run(['/venv/bin/python', demo, REPO], capture_output=True, text=True, timeout=300)
+        r0 = subprocess.run(['/venv/bin/python', demo, pristine], capture_output=True, text=True, timeout=300)
         tests = subprocess.run(['/venv/bin/python', '-m', 'pytest', '-q', '-p', 'no:cacheprovider',
                                 'tests/test_pdu.py', 'tests/test_dimsemessages.py'], cwd=tree,
                                capture_output=True, text=True)
@@ -69,7 +79,8 @@ def evaluate(args):
             out.append('    %s %-9s %-13s (%.0fs) %s' % (p, tier, verdict, dt, keys[0] if keys else ''))
             checks.append({'check': p, 'tier': tier, 'verdict': verdict, 'seconds': int(dt),
                            'first_key': keys[0] if keys else ''})
-        verified = {'applied_to': 'scratch copy of /repo (never /repo itself)', 'stable_tests': line,
+        verified = {'applied_to': 'scratch copy of /repo%s (never /repo itself)' % (' at commit ' + base if base else ''),
+                    'stable_tests': line,
                     'demo_exit_changed': r1.returncode, 'demo_exit_unchanged': r0.returncode, 'checks': checks}
         if record:
             meta['verified'] = verified
@@ -78,6 +89,8 @@ def evaluate(args):
         return name, out, verified
     finally:
         shutil.rmtree(tree, ignore_errors=True)
+        if base:
+            shutil.rmtree(pristine, ignore_errors=True)
 
 
 def write_index():
